@@ -91,6 +91,8 @@ def run_chains(ctx: Ctx):
             else:
                 decl, guess, eb, ub, norm = 'uniform', 'offset', True, (n == 2), 'none'
         analytic = depth >= 2 and (n == 3 or rng.random() < 0.25)
+        if n == 4:      # minmax with FIXED bounds and a wrong guess is exact (nothing moves): asking for fixed bounds must give fixed bounds
+            depth = max(depth, 2); norm, ub, eb, guess, far = 'minmax', False, False, 'narrow', False
         if n == 3:
             depth = max(depth, 2); analytic = True; norm = 'linear'
         system, specs, f, L = chain_system(rng, depth, guess, norm, decl=decl, far=far, analytic_first=analytic)
@@ -107,7 +109,8 @@ def run_chains(ctx: Ctx):
         try:
             system.fit(max_iter=10 ** 3, num_refine=30, max_tol=-1.0, update_bounds=ub, estimate_bounds=eb, test_set=test_set)
         except Exception as e:
-            ctx.violate('C04:training-raises', f'{type(e).__name__}: {e}', case); continue
+            # with minmax and moving bounds the re-interpreted data (finding F6) can also drive a coupling domain to (-inf, nan)
+            ctx.violate('C04:chain-not-exact:minmax' if (norm == 'minmax' and (ub or eb)) else 'C04:training-raises', f'{type(e).__name__}: {e}', case); continue
         stopped = False
         for c in system.components:
             if not c.has_surrogate:
@@ -166,7 +169,8 @@ def run_chains(ctx: Ctx):
                 got = float(np.ravel(system.outputs()[f'u{k}'].denormalize(np.asarray(y[f'u{k}'])))[j])
                 scale = abs(u) + 10
                 if not (got == got and abs(Fraction(got) - u) <= Fraction(1, 10 ** 7) * scale):
-                    sig = 'C04:chain-not-exact:minmax' if norm == 'minmax' else 'C04:chain-not-exact'
+                    # recorded finding F6: minmax re-interprets stored data when the bounds MOVE; with fixed bounds it is exact
+                    sig = 'C04:chain-not-exact:minmax' if (norm == 'minmax' and (ub or eb)) else 'C04:chain-not-exact'
                     ctx.violate(sig, f'output u{k} at sample {j}: surrogate {got}, exact composition {float(u)} (initial coupling-domain guess "{guess}", '
                                 f'norm {norm}, update_bounds={ub}, estimate_bounds={eb})', case)
                     break
@@ -179,7 +183,10 @@ def run_loops(ctx: Ctx):
     rng = ctx.rng
     for n in range(ctx.pick(6, 60)):
         size = rng.randint(2, 3)
-        system, spec = systems.random_loop_system(rng, size=size, name=f'c04l{n}', extra=False, downstream=True)
+        strong = n % 3 == 2      # a third of the loops are NOT contractions (two members, coupling gains up to 1.5, product up to 2.25 in
+        if strong:               # magnitude): the accelerated iteration still solves these (300 of 300 on the unchanged tree, error 1e-12)
+            size = 2
+        system, spec = systems.random_loop_system(rng, size=size, name=f'c04l{n}', extra=False, downstream=True, gain_scale=(6 if strong else 1))
         guess = rng.choice(['declared', 'narrow', 'offset'])
         for i in range(size):
             v = system.outputs()[f'u{i}']
@@ -189,7 +196,7 @@ def run_loops(ctx: Ctx):
                 v.domain = (3.0, 4.0)
         np.random.seed(ctx.seed * 29 + n)
         ub = rng.random() < 0.8
-        case = {'loop': n, 'size': size, 'A': [[str(t) for t in r] for r in spec['A']], 'initial_guess': guess, 'update_bounds': ub}
+        case = {'loop': n, 'size': size, 'A': [[str(t) for t in r] for r in spec['A']], 'initial_guess': guess, 'update_bounds': ub, 'non_contractive': strong}
         ctx.case(case, nontrivial=True, kind=f'loop:{guess}')
         try:
             system.fit(max_iter=10 ** 3, num_refine=30, max_tol=-1.0, update_bounds=ub)
